@@ -5,6 +5,9 @@
 (*  grown  : a channel added / one power raised (NLI on the original channels) -> Monotone                    *)
 (*  perm   : same channels supplied in another order (re-keyed by frequency)  -> OrderIndependent             *)
 (*  lin    : full / single / pair NLI in a common linear integer unit         -> Superposition, NonNegative   *)
+(*  limit  : low-dispersion experiments                                       -> LowDispersionLimit           *)
+(*  kern, xs : experiments tied by the doubling / addition identities of asinh -> AsinhDoubling,              *)
+(*                                                                               XpmKernelFromSpmKernel        *)
 EXTENDS GnpyBase, TLC, Json, IOUtils
 
 T == ndJsonDeserialize(IOEnv.TRACE_FILE)
@@ -28,12 +31,25 @@ Superposition(t) == \A c \in C(t) :
 (* ratio 2, and the gamma^2, Leff^2, P^3 factors.  `w` is 10 log10 of (1 + 2 * number of equal-power neighbours).     *)
 LowDispersionLimit(t) == \A k \in 1..Len(t.limit) : LET x == t.limit[k] IN
     Within(x.obs, x.k + x.g2 + x.l2 + x.p3 + x.w - x.loss, 30)
+(* The kernel away from that limit, through the identities that characterise asinh (kernel_family in the harness):    *)
+(*   AsinhDoubling: 2 asinh(z) = asinh(2 z sqrt(1 + z^2)) - the single channel of baud rate B2 = B1 sqrt(2 sqrt(1 + z1^2)),  *)
+(*     z1 = pi^2 |beta2| B1^2 / (2 alpha), carries 2 (B1/B2)^2 times the NLI of the channel of baud rate B1: `shift` is the *)
+(*     micro-dB projection of that factor.  A smooth odd kernel with slope 1 at 0 (LowDispersionLimit) that doubles like *)
+(*     this at every z is asinh, and the law only holds if the argument is the published one.                            *)
+(*   XpmKernelFromSpmKernel: asinh(x) - asinh(y) = asinh(x sqrt(1+y^2) - y sqrt(1+x^2)) - the XPM a pump adds on a       *)
+(*     channel (pair - single, linear unit) equals the whole NLI of one equivalent channel (`eq`): pins the band edges   *)
+(*     D +/- B_j/2, the channel's baud rate inside the argument, the 1/B_j^2 normalisation and 32/27 = 2 x 16/27.         *)
+AsinhDoubling(t) == \A k \in 1..Len(t.kern) : Within(t.kern[k].b, t.kern[k].a + t.kern[k].shift, 30)
+XpmKernelFromSpmKernel(t) == \A k \in 1..Len(t.xs) : LET x == t.xs[k] IN
+    Within(x.pair - x.single, x.eq, 3 + x.pair \div 1000000)
 PairAtLeastSingle(t) == \A c \in C(t) : \A d \in C(t) \ {c} : t.lin.pair[c][d] >= t.lin.single[c] - 1
 
 Clauses(t) == (IF CubeLaw(t) THEN {} ELSE {"CubeLaw"}) \cup (IF Monotone(t) THEN {} ELSE {"Monotone"})
          \cup (IF OrderIndependent(t) THEN {} ELSE {"OrderIndependent"}) \cup (IF NonNegative(t) THEN {} ELSE {"NonNegative"})
          \cup (IF Superposition(t) THEN {} ELSE {"Superposition"}) \cup (IF PairAtLeastSingle(t) THEN {} ELSE {"PairAtLeastSingle"})
          \cup (IF LowDispersionLimit(t) THEN {} ELSE {"LowDispersionLimit"})
+         \cup (IF AsinhDoubling(t) THEN {} ELSE {"AsinhDoubling"})
+         \cup (IF XpmKernelFromSpmKernel(t) THEN {} ELSE {"XpmKernelFromSpmKernel"})
 
 Init == tid \in 1..Len(T) /\ done = FALSE
 Next == done = FALSE /\ done' = TRUE /\ UNCHANGED tid
